@@ -17,6 +17,7 @@ fn main() {
         "loader" => sv::loader::main(&args[2..]),
         "native" => sv::native::main(&args[2..]),
         "stack" => sv::stack::main(&args[2..]),
+        "parse" => sv::parse::main(&args[2..]),
         _ => {
             eprintln!("unknown family {fam}");
             std::process::exit(2);
